@@ -464,6 +464,11 @@ class ByteStoreEngine(Engine):
                         if any(o[0] != "edit" for o in ops):
                             out.stats["skipped"] += 1
                             continue
+                        stray = [o[1] for o in ops if "\r" in o[2]]
+                        if stray:
+                            # texts handed to rope's writer are '\n'-normalised; a bare \r in a
+                            # refactoring's output would be doubled by the newline restoration
+                            bad = ("refactoring_text_not_normalised", {"paths": stray})
                         changes.description = "rf%d" % st["id"]
                         W.project.do(changes)
                         model.do({"id": st["id"], "desc": "rf%d" % st["id"], "ops": ops})
